@@ -240,3 +240,15 @@ def as_dict(n):
         return ast.copy_location(ast.Dict(keys=[ast.copy_location(ast.Constant(value=k.arg), k.value) for k in n.keywords],
                                           values=[k.value for k in n.keywords]), n)
     return None
+
+
+def as_dict_call(n):
+    """the other direction of as_dict: dict(a=x) as it stands, {"a": x} (every key a string) as the equivalent dict(..) call node;
+    None for anything else"""
+    if isinstance(n, ast.Call) and isinstance(n.func, ast.Name) and n.func.id == "dict" and not n.args and all(k.arg for k in n.keywords):
+        return n
+    if isinstance(n, ast.Dict) and n.keys and all(isinstance(k, ast.Constant) and isinstance(k.value, str) for k in n.keys):
+        c = ast.Call(func=ast.copy_location(ast.Name(id="dict", ctx=ast.Load()), n), args=[],
+                     keywords=[ast.copy_location(ast.keyword(arg=k.value, value=v), k) for k, v in zip(n.keys, n.values)])
+        return ast.copy_location(c, n)
+    return None
